@@ -50,6 +50,7 @@ package authenticode
 //@
 //@ func DigestMSI
 //@   property C02
+//@   requires comdoc.cdfOK(cdf)
 //@   ensures @imprint_present_on_success err == nil ==> imprint != nil
 //@
 //@ func VerifyMSI
@@ -66,6 +67,8 @@ package authenticode
 //@   on call crypto/hmac.Equal(a, b) ret (r): \
 //@        digestOK = digestOK || (r && recomputed != nil && sameslice(a, recomputed) && sameslice(b, indirect.MessageDigest.Digest)); \
 //@        exOK = exOK || (r && sameslice(a, prehashG) && sameslice(b, exsig))
+//@   loop 0 sig "for _, item := range files" invariant -1 <= rangeindex && rangeindex < len(files) && comdoc.cdfOK(cdf) && forall(k, 0, len(files), files[k] != nil) && \
+//@        psdG == nil && !cmsOK && recomputed == nil && !digestOK && !exOK
 //@   ensures @cms_signature_verified ret1 == nil ==> cmsOK
 //@   ensures @content_digest_recomputed_and_compared ret1 == nil && !skipDigests ==> digestOK
 //@   ensures @extended_digest_compared_when_present ret1 == nil && !skipDigests && exsig != nil ==> exOK
